@@ -122,9 +122,10 @@ def tdmd(ctx, shape, variant, ortho_l, ortho_r, perm, theta=False):
             k = min(k, len(ev))
         U, s, Vh = U[:, :k], s[:k], Vh[:k, :]
         At = U.T @ Yn @ Vh.T @ np.diag(1 / s)
-        ref = np.sort(np.linalg.eigvals(At))[::-1]
+        from .common import spec_sorted
+        ref = spec_sorted(np.linalg.eigvals(At), True)
         if s[-1] / s[0] > 1e-8:
-            ctx.eq('tdmd_%s: eigenvalues == those of matrix DMD of the unfolded snapshots' % variant, np.sort(np.asarray(ev))[::-1], ref, tol=1e-6)
+            ctx.eq('tdmd_%s: eigenvalues == those of matrix DMD of the unfolded snapshots' % variant, spec_sorted(ev, True), ref, tol=1e-6)
         ok = (modes.order == len(modes.cores) and all(c.ndim == 4 and tuple(c.shape) == (modes.ranks[i], modes.row_dims[i], modes.col_dims[i], modes.ranks[i + 1])
                                                        for i, c in enumerate(modes.cores)))
         ctx.check('tdmd_%s: mode train: metadata consistent with cores' % variant, bool(ok))
